@@ -32,6 +32,21 @@ def _guard(fn, what):
 
 
 # --------------------------------------------------------------------------- sharding
+class _IndexOnly:
+  """A random-access source that supports len() and integer indexing, not slicing."""
+
+  def __init__(self, data):
+    self._data = list(data)
+
+  def __len__(self):
+    return len(self._data)
+
+  def __getitem__(self, i):
+    if isinstance(i, slice):
+      raise TypeError(f'only integer indexing is supported, got {type(i)}')
+    return self._data[i]
+
+
 def _make_source(kind, n, splits):
   from ml_metrics._src.chainables import io  # pylint: disable=g-import-not-at-top
   data = list(range(n))
@@ -39,6 +54,11 @@ def _make_source(kind, n, splits):
     return io.SequenceDataSource(data)
   if kind == 'seq_array':
     return io.SequenceDataSource(np.arange(n))
+  if kind == 'seq_indexonly':
+    return io.SequenceDataSource(_IndexOnly(data))      # integer indexing only: every slice read falls back to single reads
+  if kind == 'multi_indexonly':
+    cuts = [0] + sorted(min(c, n) for c in splits) + [n]
+    return io.SequenceDataSource.from_sequences([_IndexOnly(data[a:b]) for a, b in zip(cuts, cuts[1:])])
   if kind == 'multi':
     cuts = [0] + sorted(min(c, n) for c in splits) + [n]
     return io.SequenceDataSource.from_sequences([data[a:b] for a, b in zip(cuts, cuts[1:])])
@@ -153,7 +173,7 @@ def run_shard(case):
 
 def enum_shard(tier):
   nmax = 12 if tier == 'quick' else 24
-  for kind in ('seq', 'multi', 'iterable', 'seq_array', 'iterable_range'):
+  for kind in ('seq', 'multi', 'iterable', 'seq_array', 'iterable_range', 'seq_indexonly'):
     for n in range(nmax + 1):
       for k in range(1, n + 5):
         yield {'kind': kind, 'n': n, 'ks': [k], 'offsets': True, 'splits': [n // 3, n // 2], 'pickle': n % 2 == 0}
@@ -170,7 +190,7 @@ def strat_shard(tier):
 
   @st.composite
   def s(draw):
-    kind = draw(st.sampled_from(['seq', 'multi', 'iterable', 'seq_array']))
+    kind = draw(st.sampled_from(['seq', 'multi', 'iterable', 'seq_array', 'seq_indexonly', 'multi_indexonly']))
     n = draw(st.one_of(st.integers(0, 40), st.integers(0, nmax)))
     depth = draw(st.integers(1, 4))
     ks = [draw(st.integers(1, 7)) for _ in range(depth)]
